@@ -23,7 +23,10 @@ package ontology
 //@   theory strings
 //@   requires wfID(key)
 //@   atcall WherePrefix forall r Relationship :: wfRel(r) ==> (strings.HasPrefix(r.GorpKey(), string(prefix)) == (r.From == key))
-//@   modifies *
+//@   # given that exact prefix the result is the list of direct successors; reachability through
+//@   # >= 1 edge unfolds over them (this is the defining equation of SpecReach, assumed)
+//@   trusted_ensures err == nil ==> (forall x ID :: SpecReach(key, x) == (exists i int :: 0 <= i && i < len(res) && (res[i].ID == x || SpecReach(res[i].ID, x))))
+//@   modifies nothing
 //@ func (d dagWriter) deleteOutgoingRelationships(ctx context.Context, from ID) (err error)
 //@   theory strings
 //@   requires wfID(from)
@@ -67,11 +70,16 @@ package ontology
 //@ trusted func (d dagWriter) validateResourcesExist(ctx context.Context, ids ...ID) (err error)
 //@   ensures err == nil ==> (forall i int :: 0 <= i && i < len(ids) ==> SpecNodes[ids[i]])
 //@   modifies nothing
-//@ # the descendant walk returns exactly the resources reachable through >= 1 edge (given exact
-//@ # outgoing-edge selection, which is the atcall obligation of retrieveOutgoingRelationships)
-//@ trusted func (d dagWriter) retrieveDescendants(ctx context.Context, id ID) (m map[ID]Resource, err error)
+//@ # the descendant walk returns exactly the resources reachable through >= 1 edge. Recursive:
+//@ # the recursive call is used through this same contract (termination on an acyclic graph is not proved)
+//@ func (d dagWriter) retrieveDescendants(ctx context.Context, id ID) (m map[ID]Resource, err error)
+//@   theory strings
+//@   requires wfID(id) && (forall x ID :: SpecReach(id, x) ==> wfID(x))
 //@   ensures err == nil ==> (forall x ID :: __in(m, x) == SpecReach(id, x))
 //@   modifies nothing
+//@   loop 0 modifies descendants
+//@   loop 0 invariant descendants != nil
+//@   loop 0 invariant forall x ID :: __in(descendants, x) == (exists j int :: 0 <= j && j < __ri(0) && (children[j].ID == x || SpecReach(children[j].ID, x)))
 
 //@ # from the property: the new edge is created only when it does not exist yet, both resources
 //@ # exist, and it closes no cycle - a new edge from->to closes a cycle iff from == to or from is
